@@ -28,6 +28,8 @@ SymbolsOf(role) ==
                              \cup Lits({"15", "16", "17", "31", "32", "33", "63", "64", "255"})
     [] role = "index"  -> {"0", "1", "2", "orig-1", "orig+1", "len", "i31max", "i31", "u32max"} \cup Trunc16
                              \cup Lits({"3", "4", "5", "7", "8", "9", "16", "255", "256"})
+    \* offset / width / height of a rectangle inside a fixed grid (MH2O 8x8 tiles, 9x9 vertices): 0, 1, 7, 8, 9, 255 ...
+    [] role = "extent" -> {"0", "1", "2", "orig-1", "orig+1", "i31max", "i31", "u32max"} \cup Lits({"7", "8", "9", "16", "255"})
     [] role = "strlen" -> NumSymbols
     [] role = "stroff" -> NumSymbols
     [] role = "term"   -> {"nonzero"}
@@ -51,9 +53,10 @@ ChunkPlan == {[arch |-> "chunkedit", role |-> op, val |-> p] : op \in ChunkOps, 
 \* two sibling fields of one structure edited together (count with offset, offset with size, ...): the model's
 \* adversary chooses count, offset and element size jointly; the single-field items above fix all but one
 PairSymbols == {"0", "rem+1", "orig-1", "orig+1", "u32max"}
-\* quick: three symbols, applied by the harness to ALL field pairs of the small PTCH header / bsdiff40 block (sizes that
-\* must agree with each other: size_after with new_size, ctrl/diff sizes with the copy lengths) -- two cooperating edits
-PairSymbolsQ == {"orig-1", "orig+1", "rem+1"}
+\* quick: four symbols, applied by the harness to ALL field pairs of the small PTCH header / bsdiff40 block (sizes that
+\* must agree with each other: size_after with new_size, ctrl/diff sizes with the copy lengths) and to every pair of
+\* `extent` fields of one rectangle (offset with width / height) -- two cooperating edits
+PairSymbolsQ == {"orig-1", "orig+1", "rem+1", "u32max"}
 PairPlan == LET S == IF Thorough THEN PairSymbols ELSE PairSymbolsQ
             IN  {[arch |-> "pair", role |-> a, val |-> b] : a \in S, b \in S}
 
